@@ -20,7 +20,7 @@ ID = "C11"
 LEVEL = "model_checking"
 RULE = ("product space: List / Set / FrozenSet / Tuple[...,...] / Deque over 3 element types, Dict over 2 key x 2 value "
         "types, List[List[L]], Dict[str, List[L]], data-class fields with on_error, extra keys with addition=int and "
-        "*args:int x every input container (list / tuple / set spelling; utype does not unpack generators) of length <= 3 (quick) / 4 over "
+        "*args:int x every input container (list / tuple / set spelling; utype does not unpack generators) of length <= 3 (quick) / 7 (thorough) over "
         "{valid, convertible, invalid, other invalid} x the policy combinations that apply (all 27 for mappings) x "
         "{type_transform, data-class field}; state = one (type, policy, input), transitions = one parse of the container "
         "+ one black-box parse per element. Non-trivial when at least one element offends")
@@ -80,7 +80,7 @@ def specs(tier):
 
 
 def bounds(tier):
-    return dict(types=len(specs(tier)), element_values=4, max_len=4 if tier == "thorough" else 3, policies=POLICIES)
+    return dict(types=len(specs(tier)), element_values=4, max_len=7 if tier == "thorough" else 3, policies=POLICIES)
 
 
 def shards(tier):
@@ -125,7 +125,7 @@ def run_shard(shard, tier):
     _CUR["shard"], _CUR["tier"] = shard, tier
     kind, ann, meta = specs(tier)[shard[1]]
     cache = {}
-    maxlen = 4 if tier == "thorough" else 3
+    maxlen = 7 if tier == "thorough" else 3
     if kind == "seq":
         _seq(acc, ann, meta, maxlen, cache, tier)
     elif kind == "map":
